@@ -9,11 +9,23 @@ namespace XsVerif.Driver.C01
 def handle (j : Json) : Except String Json := do
   let n ← getNat j "n"
   let (p, nodes) ← parseParticle (← j.getObjVal? "model")
+  -- optional XSD 1.1 open content: {"mode": "interleave"|"suffix", "wild": leaf particle JSON}
+  let (oc, wl, nodes) ← match j.getObjVal? "oc" with
+    | .ok (.null) | .error _ => pure (({} : OC), (none : Option Leaf), nodes)
+    | .ok o => do
+      let mode ← match (← getStr o "mode") with
+        | "interleave" => pure OpenMode.interleave | "suffix" => pure OpenMode.suffix | _ => throw "oc mode"
+      let (wp, wn) ← parseParticle (← o.getObjVal? "wild")
+      let leaf ← match wp with | .leaf l _ _ => pure l | _ => throw "oc wildcard"
+      pure (({ mode, wild := wp.pid } : OC), some leaf, nodes ++ wn)
   let A := mkArena n nodes
+  let lang (w : List QN) : Bool := match wl with
+    | none => inModel p w
+    | some l => Rx.accepts Leaf.matches (withOpen oc.mode l p.toRx) w
   let words ← (← getArr j "words").toList.mapM fun w => do (← w.getArr?).toList.mapM parseQN
   let res := words.map fun w =>
-    let v := childErrors A n p.pid w
-    Json.mkObj [("o", inModel p w), ("m", v.errors.isEmpty),
+    let v := childErrors A n p.pid w oc
+    Json.mkObj [("o", lang w), ("m", v.errors.isEmpty),
       ("e", Json.arr (v.errors.map fun e => Json.arr #[e.index, e.particle, e.occurs]).toArray),
       ("f", v.fuelOut)]
   return Json.mkObj [("r", Json.arr res.toArray)]
